@@ -132,6 +132,8 @@ def run(ctx):
     for b, bb, t in prog.callers_of("^" + re.escape(wok.path) + "$"):
         if b.path == fin.path or "::tests::" in b.path:
             continue
+        if b.path in getattr(prog, "absorbed_new_closures", ()) or b.path in getattr(prog, "absorbed_dead_closures", ()):
+            continue     # a closure whose body sits, expanded, in the function that builds it (finalize's `map_or(.., |end| ..)`): analysed there
         a1, a2 = b.arg_origin(bb, 1), b.arg_origin(bb, 2)
         ctx.ob("C14.arg-flow", T.is_const_int(a1, 0) and T.is_const_int(a2, 0), "%s sends an OK with counts (%s, %s)" % (b.path, term_str(a1), term_str(a2)),
                fn=b.path, construct="library-ok", where=b.where(bb), nontrivial=False)
